@@ -199,8 +199,18 @@ func genProgress(seed int64, index int, tier string, kind string) *spec.Case {
 			Spec: enginev2.QueueSpec{ParentQueue: parent, Resources: res, Priority: prio}}
 		c.Objects.Queues = append(c.Objects.Queues, q)
 	}
+	// limits of inner queues (own stream: the other draws of the case stay what they were): in a third of the reclaim
+	// clusters a department / the root carries a limit equal to what its sub-tree holds right now (the cluster is
+	// full) or one unit more - an exchange below it keeps its allocation and is not obstructed by it
+	rl := gen.NewRand(seed, index, 12)
+	innerLimit := func(held int) float64 {
+		if kind != "reclaim" || rl.IntN(3) != 0 {
+			return -1
+		}
+		return float64(held) + pickR(rl, 0.0, 0, 1)
+	}
 	if structure == "two-level" || structure == "uneven-root" {
-		mkQueue("root", "", pickR(r, -1, float64(capacity), float64(capacity)/2), -1, 1, nil)
+		mkQueue("root", "", pickR(r, -1, float64(capacity), float64(capacity)/2), innerLimit(capacity), 1, nil)
 	}
 	for _, p := range parents {
 		if p == "" || (p == "root" && structure == "uneven-root") {
@@ -208,12 +218,14 @@ func genProgress(seed int64, index int, tier string, kind string) *spec.Case {
 		}
 		sum := 0.0
 		unlimited := false
+		held := 0
 		for _, l := range leaves {
 			if l.parent == p {
 				if l.quota < 0 {
 					unlimited = true
 				}
 				sum += l.quota
+				held += l.alloc
 			}
 		}
 		pq := sum
@@ -235,7 +247,7 @@ func genProgress(seed int64, index int, tier string, kind string) *spec.Case {
 		if structure == "root" {
 			pq = pickR(r, -1, float64(capacity), sum)
 		}
-		mkQueue(p, top, pq, -1, pickR(r, 1.0, 1, 2), nil)
+		mkQueue(p, top, pq, innerLimit(held), pickR(r, 1.0, 1, 2), nil)
 	}
 	for _, l := range leaves {
 		limit := -1.0
